@@ -174,12 +174,38 @@ Print Assumptions C05_request_fields.
 (* the property oracle (Model/ClientAccept.v, C05_ok) accepts what the model
    does, on all inputs: payloads are byte strings; the views handed to the
    oracle carry the delivered bytes and flags that do not understate the facts *)
-Theorem C05_oracle_holds_of_model : forall open q evs views,
+(* one exchange; [prev] is the oracle's own history (the receive timestamp of the datagram its
+   last success was based on), [prev_ok]: an interleaved request quotes a timestamp from it *)
+Theorem C05_oracle_holds_of_model : forall open q evs views prev,
   Forall payload_bytes (dgrams_of evs) ->
   Forall2 (faithful open q) (dgrams_of evs) views ->
-  C05_ok (oreq_of q) views (obs_of (recv_loop open q 0 0 evs)) = true.
+  prev_ok prev q ->
+  C05_ok (oreq_of prev q) views (obs_of (recv_loop open q 0 0 evs)) = true.
 Proof. exact oracle_holds_of_model. Qed.
 Print Assumptions C05_oracle_holds_of_model.
+
+(* the oracle with its own history along every history of calls and mode resets of one client,
+   from the initial state: every exchange meets C05_ok where "the previous measurement's receive
+   timestamp" is what the ORACLE recorded from the datagram of the last success (C05_basis), not
+   what the client's request says - a timestamp of a skipped or rejected datagram never enters a
+   reported measurement.  [views q e]: the views of the datagrams of exchange e under request q *)
+Theorem C05_oracle_history_holds : forall open views c ops,
+  ops_faithful open views ops ->
+  oracle_history open views c cstate0 ops [] = true.
+Proof.
+  intros open views c ops H. apply oracle_history_holds; [exact H|]. intros _ Hc. discriminate.
+Qed.
+Print Assumptions C05_oracle_history_holds.
+
+(* ... from any state that the oracle's history backs, with the invariant spelled out: along the
+   exchanges of one call the verdict is true, the invariant is kept and the state carried is the
+   one the model's call_loop returns *)
+Theorem C05_oracle_call_holds : forall open views c envs st prev i nerr acc,
+  Forall (views_faithful open views) envs -> hist_inv c st prev ->
+  let '(b, s2, p) := oracle_call open views c st envs prev in
+  b = true /\ hist_inv c s2 p /\ s2 = fst (fst (call_loop open c st envs i nerr acc)).
+Proof. exact oracle_call_holds. Qed.
+Print Assumptions C05_oracle_call_holds.
 
 (* ------------------------------------------------------------------ *)
 (* The hypotheses are satisfiable; the loop does accept.               *)
@@ -398,18 +424,56 @@ Proof. eexists. vm_compute. reflexivity. Qed.
 
 (* the oracle rejects an offset based on a datagram whose authenticator does not verify *)
 Example C05_ex_oracle_rejects_bad_mac :
-  C05_ok {| oq_nts := false; oq_ireq := false; oq_org := ex_t 0 0; oq_rx := ex_t 0 0; oq_tx := ex_t 3908988800 5;
+  C05_ok {| oq_nts := false; oq_ireq := false; oq_prev := []; oq_rx := ex_t 0 0; oq_tx := ex_t 3908988800 5;
             oq_ref := 1700000000000000000 |}
          [{| o_from_server := true; o_payload := ex_good; o_uid_ok := false; o_auth_ok := false; o_spao_ok := false |}]
          (ObsOffset 1700000000000001000 1700000000000232830 1700000000000465661 1700000000000900000 (-101254)) = false.
 Proof. vm_compute. reflexivity. Qed.
 (* ... and accepts it when the authenticator is in order *)
 Example C05_ex_oracle_accepts_good_mac :
-  C05_ok {| oq_nts := false; oq_ireq := false; oq_org := ex_t 0 0; oq_rx := ex_t 0 0; oq_tx := ex_t 3908988800 5;
+  C05_ok {| oq_nts := false; oq_ireq := false; oq_prev := []; oq_rx := ex_t 0 0; oq_tx := ex_t 3908988800 5;
             oq_ref := 1700000000000000000 |}
          [{| o_from_server := true; o_payload := ex_good; o_uid_ok := false; o_auth_ok := false; o_spao_ok := true |}]
          (ObsOffset 1700000000000001000 1700000000000232830 1700000000000465661 1700000000000900000 (-101254)) = true.
 Proof. vm_compute. reflexivity. Qed.
+
+(* the oracle keeps its own history: an interleaved response (origin = the request's receive field)
+   combined with a receive timestamp that is not the one of the datagram the previous success was
+   based on - e.g. that of a response rejected for "transmit before receive", kept by mistake - is rejected *)
+Definition ex_ireq (prev : list time64) : oreq :=
+  {| oq_nts := false; oq_ireq := true; oq_rx := ex_t 3908988800 77; oq_tx := ex_t 3908988800 5; oq_prev := prev;
+     oq_ref := 1700000000000000000 |}.
+Definition ex_iresp : bytes := ex_hdr 36 1 (ex_t 3908988800 77) (ex_t 3908988801 1000000) (ex_t 3908988800 2000000).
+Definition ex_iview : oview :=
+  {| o_from_server := true; o_payload := ex_iresp; o_uid_ok := false; o_auth_ok := false; o_spao_ok := true |}.
+(* t1 = 1699999950 s: fifty seconds in the past, the receive field of no accepted datagram *)
+Example C05_ex_oracle_rejects_stale_t1 :
+  C05_ok (ex_ireq [ex_t 3908988799 0]) [ex_iview]
+         (ObsOffset 1699999999000001000 1699999950000000000 1700000000000465661 1699999999000900000
+                    (clock_offset 1699999999000001000 1699999950000000000 1700000000000465661 1699999999000900000)) = false.
+Proof. vm_compute. reflexivity. Qed.
+(* the same observation when the oracle's history does hold that timestamp *)
+Example C05_ex_oracle_accepts_recorded_t1 :
+  C05_ok (ex_ireq [ex_t 3908988750 0]) [ex_iview]
+         (ObsOffset 1699999999000001000 1699999950000000000 1700000000000465661 1699999999000900000
+                    (clock_offset 1699999999000001000 1699999950000000000 1700000000000465661 1699999999000900000)) = true.
+Proof. vm_compute. reflexivity. Qed.
+(* a sequence: a success records the datagram's receive field, an error leaves the history alone *)
+Example C05_ex_basis :
+  C05_basis {| oq_nts := false; oq_ireq := false; oq_prev := [ex_t 1 2]; oq_rx := ex_t 0 0; oq_tx := ex_t 3908988800 5;
+               oq_ref := 1700000000000000000 |}
+            [{| o_from_server := true; o_payload := ex_good; o_uid_ok := false; o_auth_ok := false; o_spao_ok := true |}]
+            (ObsOffset 1700000000000001000 1700000000000232830 1700000000000465661 1700000000000900000 (-101254))
+  = [ex_t 3908988800 1000000] /\
+  C05_basis (ex_ireq [ex_t 1 2]) [ex_iview] ObsError = [ex_t 1 2].
+Proof. split; vm_compute; reflexivity. Qed.
+
+(* the hypotheses of the history theorem are satisfiable: histories without datagrams, any views *)
+Example C05_ex_ops_faithful : ops_faithful ex_open_none (fun _ _ => []) [HCall [{| e_ref := 0; e_ctx1 := 0; e_uid := []; e_s2c := []; e_authkey := false; e_evs := [EvErr true] |}]; HReset].
+Proof.
+  intros envs [H|[H|[]]]; [|discriminate]. inversion H; subst. constructor; [|constructor].
+  split; [constructor|]. intros q. constructor.
+Qed.
 
 (* the ideal-AEAD hypothesis of C05_nts_authentic has an instance *)
 Example C05_ex_ideal : exists (sealed : bytes -> bytes -> bytes -> bytes -> bytes -> Prop),
@@ -418,7 +482,7 @@ Proof. exists (fun k n ad pt ct => ex_open k n ad ct = Some pt). auto. Qed.
 
 (* the oracle rejects an offset that is based on no delivered genuine datagram *)
 Example C05_ex_oracle_rejects :
-  C05_ok {| oq_nts := false; oq_ireq := false; oq_org := ex_t 0 0; oq_rx := ex_t 0 0; oq_tx := ex_t 3908988800 5;
+  C05_ok {| oq_nts := false; oq_ireq := false; oq_prev := []; oq_rx := ex_t 0 0; oq_tx := ex_t 3908988800 5;
             oq_ref := 1700000000000000000 |}
          [{| o_from_server := false; o_payload := ex_good; o_uid_ok := false; o_auth_ok := false; o_spao_ok := true |}]
          (ObsOffset 1700000000000001000 1700000000000232830 1700000000000465661 1700000000000900000 (-101254)) = false.
